@@ -234,8 +234,11 @@ tagspec(struct scope *s)
 		if (!t->u.structunion.members)
 			error(&tok.loc, "struct/union has no members");
 		next();
-		if (!b.pack)
+		if (!b.pack) {
+			if (ALIGNUP(t->size, t->align) < t->size)
+				error(&tok.loc, "struct is too large");
 			t->size = ALIGNUP(t->size, t->align);
+		}
 		break;
 	case TYPEENUM:
 		enumconsts = NULL;
@@ -794,6 +797,8 @@ addmember(struct structbuilder *b, struct qualtype mt, char *name, int align, un
 		}
 		if (t->kind == TYPESTRUCT) {
 			m->offset = ALIGNUP(t->size, align);
+			if (m->offset < t->size || mt.type->size > -1ull - m->offset)
+				error(&tok.loc, "struct is too large");
 			t->size = m->offset + mt.type->size;
 		} else {
 			m->offset = 0;
@@ -816,6 +821,8 @@ addmember(struct structbuilder *b, struct qualtype mt, char *name, int align, un
 		if (t->kind == TYPESTRUCT) {
 			/* calculate end of the storage-unit for this bit-field */
 			end = ALIGNUP(t->size, mt.type->size);
+			if (end < t->size)
+				error(&tok.loc, "struct is too large");
 			if (!width || width > (end - t->size) * 8 + b->bits) {
 				/* no room, allocate a new storage-unit */
 				t->size = end;
